@@ -315,4 +315,22 @@ func init() {
 		}
 		return out
 	}}
+
+	// streak: a long run of failing reconciles of one key (a foreign pod squats on a
+	// desired name), with clock advances so that every rate-limited re-add fires
+	profiles["streak"] = &Profile{Name: "streak", Tweak: func(r *PRNG, c *Config) {
+		c.Sets = c.Sets[:1]
+		sc := &c.Sets[0]
+		sc.Replicas = int32(r.Range(1, 3))
+		sc.Slots = nil
+		sc.Paused = false
+		sc.Claims = 0
+		c.Workers = 1
+		c.Dialect = "none"
+		c.FaultPct = 0
+		c.Weights = map[string]int{"worker": 30, "release": 120, "advance": 30, "deliver": 10, "kube": 4, "touch": 1}
+		c.Chaos = r.Range(250, 450)
+	}, Prefix: func(r *PRNG, c *Config) []Step {
+		return []Step{{K: "mkset", A: 0}, {K: "mkpod", A: 0, B: 0, C: ownOtherKind | 3<<2 | 1<<6, D: c.Sets[0].Template}, {K: "boot"}}
+	}}
 }
